@@ -9,3 +9,4 @@ import OxyModel.Props.C20
 #print axioms C20.C20_abort_state
 #print axioms C20.C20_failed_hijack_relayed
 #print axioms C20.C20_info_implicit_final_counterexample
+#print axioms C20.C20_retry_documented
